@@ -36,10 +36,13 @@ NoLimit == 1000
 \* (stdin = -stdout-from PROGRAM in [setup]) that is the act phase, later than the instruction that names it:
 \*   decl-then-set  stdin = ..., then timeout = N, both in [setup]: in force when the process starts
 \*   set-decl-none  timeout = N, stdin = ..., timeout = none: lifted when the process starts
+\*   zero-before    timeout = 0 in [setup] before the use: a limit like any other - no process gets any time
+\*   none-then-zero timeout = none, then timeout = 0 (0 is a number, not another way of writing "none")
 DeclHistories == {"decl-then-set", "set-decl-none"}
-LimitAtUse(h) == IF h \in {"set-before", "none-then-set", "decl-then-set"} THEN Limit ELSE NoLimit
+LimitAtUse(h) == IF h \in {"set-before", "none-then-set", "decl-then-set"} THEN Limit
+                 ELSE IF h \in {"zero-before", "none-then-zero"} THEN 0 ELSE NoLimit
 \* what the process is given when it starts: the limit that was set, none, or the documented default (60 s)
-AtStart(h) == IF LimitAtUse(h) # NoLimit THEN "set"
+AtStart(h) == IF LimitAtUse(h) = 0 THEN "zero" ELSE IF LimitAtUse(h) # NoLimit THEN "set"
               ELSE IF h \in {"set-then-none", "set-decl-none"} THEN "none" ELSE "default"
 Uses(p) == CASE p = "act" -> {"actor-command-line", "actor-shell", "actor-file", "actor-source", "stdin-from-program"}
              [] p = "assert" -> {"run", "shell", "percent", "file-from-stdout", "transformer-run", "text-matcher-run",
@@ -105,11 +108,11 @@ TFairSpec == TSpec /\ WF_tvars(TNext)
 \* ---- properties -----------------------------------------------------------------------------
 Limited == LimitAtUse(hist) # NoLimit
 \* a process never runs beyond the limit in force at its start (by more than the tick in which that is noticed)
-KilledWhenOver == (proc = "running" /\ Limited) => clock <= Limit + 1
-MustBeKilled == Limited /\ Dur(child) > Limit
+KilledWhenOver == (proc = "running" /\ Limited) => clock <= LimitAtUse(hist) + 1
+MustBeKilled == Limited /\ Dur(child) > LimitAtUse(hist)
 TerminatedWhenOver == (done /\ MustBeKilled) => proc = "killed"
 \* ... and is not touched before
-NotKilledWhenUnder == (proc = "killed") => (Limited /\ clock > Limit)
+NotKilledWhenUnder == (proc = "killed") => (Limited /\ clock > LimitAtUse(hist))
 RunsToCompletionOtherwise == (done /\ ~MustBeKilled) => proc = "exited"
 \* the step is reported as HARD_ERROR, in the phase of the use
 StepIsHardError ==
@@ -120,7 +123,7 @@ CleanupStillRuns ==
   (done /\ proc = "killed" /\ place # "cleanup") =>
      \E a \in 1..Len(log) : log[a][1] = "main" /\ log[a][2] = "cleanup" /\ log[a][4] = "ok"
 \* Exactly returns within a bounded time after the limit
-BoundedReturn == Limited => total <= Limit + 1
+BoundedReturn == Limited => total <= LimitAtUse(hist) + 1
 SpendsTheChildsTime == (done /\ ~MustBeKilled) => total = Dur(child)
 \* liveness: it always returns
 Returns == <>(done /\ result # <<>>)
